@@ -80,6 +80,22 @@ func (c *Conn) BuildPacket(flags byte, payload []byte, padLen int) []byte {
 	return pkt
 }
 
+// BuildPacketRaw builds an AUTHENTICATED packet whose header fields are whatever the caller says (for
+// malformed-packet tests): body is what follows the header on the wire (len(body) bytes are sent).
+func (c *Conn) BuildPacketRaw(flags byte, totalLen, payloadLen uint16, bodyBytes []byte) []byte {
+	pkt := make([]byte, HeaderLen+len(bodyBytes))
+	body := pkt[MacLen:]
+	binary.BigEndian.PutUint16(body[0:], totalLen)
+	binary.BigEndian.PutUint16(body[2:], payloadLen)
+	body[4] = flags
+	copy(body[5:], bodyBytes)
+	c.txMu.Lock()
+	c.tx.XORKeyStream(body, body)
+	c.txMu.Unlock()
+	copy(pkt[:MacLen], mac128(c.txMac, body))
+	return pkt
+}
+
 // BuildPayload chops data into payload packets (flags=1) of at most 1427
 // payload bytes; the last packet additionally carries padLen padding bytes.
 // Empty data with padLen >= 0 yields one padding-only packet.
